@@ -4,3 +4,4 @@ import CmGen.StateSig
 import CmGen.Leaves
 import CmGen.Optimiser
 import CmGen.StrHelpers
+import CmGen.CliSrc
